@@ -1,6 +1,6 @@
 (* Executable comparison for C19 case files. *)
 From Coq Require Import List NArith Bool Arith String.
-From DM Require Import Base.Util Model.Wal.
+From DM Require Import Base.Util Gen.Consts Model.Wal.
 Import ListNotations.
 Open Scope N_scope.
 
@@ -47,7 +47,7 @@ Definition spec_ok (c : wcase) : bool :=
     | Some obs =>
         let start := list_start (wl_from q) in
         let due := filter (fun e => start <=? fst e) apps in
-        let m := Nat.min (wl_max q) 1000 in
+        let m := Nat.min (wl_max q) walMaxEntriesPerList in
         (* token order, no duplicates *)
         strictly_increasing (map fst obs) &&
         (* only appended entries, token and payload unchanged, none from before the window *)
